@@ -2,9 +2,16 @@
 Driver for the ClassModel requirement machine (C12).
 
 Abstract side (what TLC sees): class ids "A".."F", a class DECLARATION
-    d = {"cq": QMap, "el": {"k","p","q","m": ED}}
-    ED = {"present", "ovr", "quals": QMap, "xquals": QMap}
+    d = {"cq": QMap, "cfl": FMap, "el": {"k","p","q","m": ED}}
+    ED = {"present", "ovr", "quals": QMap, "xquals": QMap, "fl": FMap,
+          "xfl": FMap, "pars"}
     QMap = [QA, QB, QC, Key] value tokens ("" = not given, "1", "2")
+    FMap = per qualifier the flavors given explicitly ON THE USE: [ts, ov],
+          ts in "", "T" (ToSubclass), "R" (Restricted); ov in "", "E", "D"
+    pars = parameter list of the method declaration: "x", "xy", "y", ""
+    obj  = handle of the client-side CIMClass object passed to CreateClass /
+          ModifyClass (0 = built for this call only); "ClientEdit" events =
+          the client changes an object it passed (or received) in place
 and events carrying the projected result of every call.
 
 Concrete side: classes C12_<id> in namespace root/c12 of a FakedWBEMConnection,
@@ -31,6 +38,8 @@ NS = "root/c12"
 CIDS = ["A", "B", "C", "D", "E", "F"]
 QNAMES = ["QA", "QB", "QC", "Key"]
 Q0 = ["", "", "", ""]
+NOFL = ["", ""]
+FL0 = [NOFL, NOFL, NOFL, NOFL]
 ELEMS = ["k", "p", "q", "m"]
 
 QUALIFIER_MOF = """
@@ -61,29 +70,40 @@ def fresh():
 # abstract declarations
 # ----------------------------------------------------------------------------
 
-def ed(present=False, ovr=False, quals=None, xquals=None):
+def _fmap(f):
+    return [[str(a), str(b)] for a, b in (f or FL0)]
+
+
+def ed(present=False, ovr=False, quals=None, xquals=None, fl=None, xfl=None,
+       pars=None):
     return {"present": bool(present), "ovr": bool(ovr),
-            "quals": list(quals or Q0), "xquals": list(xquals or Q0)}
+            "quals": list(quals or Q0), "xquals": list(xquals or Q0),
+            "fl": _fmap(fl), "xfl": _fmap(xfl),
+            "pars": ("x" if present else "") if pars is None else pars}
 
 
-def decl(cq=None, k=None, p=None, q=None, m=None):
-    return {"cq": list(cq or Q0),
+def decl(cq=None, k=None, p=None, q=None, m=None, cfl=None):
+    return {"cq": list(cq or Q0), "cfl": _fmap(cfl),
             "el": {"k": k or ed(), "p": p or ed(), "q": q or ed(),
                    "m": m or ed()}}
 
 
-KEY_ED = ed(True, False, ["", "", "", "1"])
+KEY_ED = ed(True, False, ["", "", "", "1"], pars="")
 EMPTY_DECL = decl()
 
 
 def norm_decl(d):
     """TLC prints records/tuples; bring a parsed value into JSON shape."""
-    out = {"cq": [str(x) for x in d["cq"]], "el": {}}
+    out = {"cq": [str(x) for x in d["cq"]], "cfl": _fmap(d.get("cfl")),
+           "el": {}}
     for e in ELEMS:
         x = d["el"][e]
         out["el"][e] = {"present": bool(x["present"]), "ovr": bool(x["ovr"]),
                         "quals": [str(v) for v in x["quals"]],
-                        "xquals": [str(v) for v in x["xquals"]]}
+                        "xquals": [str(v) for v in x["xquals"]],
+                        "fl": _fmap(x.get("fl")), "xfl": _fmap(x.get("xfl")),
+                        "pars": str(x.get("pars", "x" if x["present"]
+                                          else ""))}
     return out
 
 
@@ -113,24 +133,37 @@ def ename(rng, e):
     return _case(rng, e)
 
 
-def _qual_items(rng, qm):
-    """[(concrete qualifier name, python value)] of a QMap."""
+def _qual_items(rng, qm, fm=None):
+    """[(concrete qualifier name, python value, [ts, ov])] of a QMap and the
+    flavors given on the use."""
     out = []
+    fm = fm or FL0
     for i, v in enumerate(qm):
         if v == "":
             continue
         if i == 3:
-            out.append((_case(rng, "Key"), v == "1"))
+            out.append((_case(rng, "Key"), v == "1", fm[i]))
         else:
-            out.append((_case(rng, QNAMES[i]), v))
+            out.append((_case(rng, QNAMES[i]), v, fm[i]))
     return out
 
 
+_TS = {"": None, "T": True, "R": False}
+_OV = {"": None, "E": True, "D": False}
+_KW = {"T": "ToSubclass", "R": "Restricted", "E": "EnableOverride",
+       "D": "DisableOverride"}
+
+
+def _cimq(item):
+    n, v, f = item
+    return CIMQualifier(n, v, tosubclass=_TS[f[0]], overridable=_OV[f[1]])
+
+
 def _elem_quals(rng, cid, e, x):
-    items = _qual_items(rng, x["quals"])
-    items.append((_case(rng, "Description"), "v" + cid))
+    items = _qual_items(rng, x["quals"], x["fl"])
+    items.append((_case(rng, "Description"), "v" + cid, NOFL))
     if x["ovr"]:
-        items.append((_case(rng, "Override"), ename(rng, e)))
+        items.append((_case(rng, "Override"), ename(rng, e), NOFL))
     rng.shuffle(items)
     return items
 
@@ -141,7 +174,7 @@ def build_cimclass(rng, cid, sup, d):
         x = d["el"][e]
         if not x["present"]:
             continue
-        quals = [CIMQualifier(n, v) for n, v in _elem_quals(rng, cid, e, x)]
+        quals = [_cimq(it) for it in _elem_quals(rng, cid, e, x)]
         if e == "k":
             props.append(CIMProperty(ename(rng, e), None, type="uint32",
                                      qualifiers=quals))
@@ -150,28 +183,38 @@ def build_cimclass(rng, cid, sup, d):
                                      qualifiers=quals))
     x = d["el"]["m"]
     if x["present"]:
-        par = CIMParameter(ename(rng, "x"), type="string", qualifiers=[
-            CIMQualifier(n, v) for n, v in _qual_items(rng, x["xquals"])])
+        pars = []
+        if "x" in x["pars"]:
+            pars.append(CIMParameter(ename(rng, "x"), type="string", qualifiers=[
+                _cimq(it) for it in _qual_items(rng, x["xquals"], x["xfl"])]))
+        if "y" in x["pars"]:
+            pars.append(CIMParameter(ename(rng, "y"), type="uint32"))
+        rng.shuffle(pars)
         meths.append(CIMMethod(
-            ename(rng, "m"), return_type="uint32", parameters=[par],
-            qualifiers=[CIMQualifier(n, v)
-                        for n, v in _elem_quals(rng, cid, "m", x)]))
+            ename(rng, "m"), return_type="uint32", parameters=pars,
+            qualifiers=[_cimq(it) for it in _elem_quals(rng, cid, "m", x)]))
     rng.shuffle(props)
     return CIMClass(
         cname(rng, cid), superclass=cname(rng, sup) if sup else None,
-        qualifiers=[CIMQualifier(n, v) for n, v in _qual_items(rng, d["cq"])],
+        qualifiers=[_cimq(it)
+                    for it in _qual_items(rng, d["cq"], d["cfl"])],
         properties=props, methods=meths)
 
 
-def _mof_quals(items):
+def _mof_quals(items, rng=None):
     if not items:
         return ""
     parts = []
-    for n, v in items:
+    for n, v, f in items:
+        kws = [_KW[c] for c in f if c]
+        if rng is not None:
+            rng.shuffle(kws)
+            kws = [_case(rng, k) for k in kws]
+        fl = (" : " + " ".join(kws)) if kws else ""
         if isinstance(v, bool):
-            parts.append("%s(%s)" % (n, "true" if v else "false"))
+            parts.append("%s(%s)%s" % (n, "true" if v else "false", fl))
         else:
-            parts.append('%s("%s")' % (n, v))
+            parts.append('%s("%s")%s' % (n, v, fl))
     return "[" + ", ".join(parts) + "] "
 
 
@@ -181,19 +224,27 @@ def build_mof(rng, cid, sup, d):
         x = d["el"][e]
         if not x["present"]:
             continue
-        ql = _mof_quals(_elem_quals(rng, cid, e, x))
+        ql = _mof_quals(_elem_quals(rng, cid, e, x), rng)
         if e == "k":
             lines.append("    %suint32 %s;" % (ql, ename(rng, e)))
         else:
             lines.append('    %sstring %s = "v%s";' % (ql, ename(rng, e), cid))
     x = d["el"]["m"]
     if x["present"]:
-        lines.append("    %suint32 %s(%sstring %s);" % (
-            _mof_quals(_elem_quals(rng, cid, "m", x)), ename(rng, "m"),
-            _mof_quals(_qual_items(rng, x["xquals"])), ename(rng, "x")))
+        pars = []
+        if "x" in x["pars"]:
+            pars.append("%sstring %s" % (
+                _mof_quals(_qual_items(rng, x["xquals"], x["xfl"]), rng),
+                ename(rng, "x")))
+        if "y" in x["pars"]:
+            pars.append("uint32 %s" % ename(rng, "y"))
+        rng.shuffle(pars)
+        lines.append("    %suint32 %s(%s);" % (
+            _mof_quals(_elem_quals(rng, cid, "m", x), rng), ename(rng, "m"),
+            ", ".join(pars)))
     rng.shuffle(lines)
     head = "%sclass %s%s {" % (
-        _mof_quals(_qual_items(rng, d["cq"])), cname(rng, cid),
+        _mof_quals(_qual_items(rng, d["cq"], d["cfl"]), rng), cname(rng, cid),
         (" : " + cname(rng, sup)) if sup else "")
     return "\n".join([head] + lines + ["};"])
 
@@ -247,8 +298,8 @@ def _prop_tok(v):
 
 
 ABSENT_PEL = {"present": False, "ver": "", "origin": "", "prop": "N",
-              "quals": Q0, "nq": 0, "hasx": False, "xquals": Q0, "nxq": 0,
-              "odd": ""}
+              "quals": Q0, "nq": 0, "hasx": False, "pars": "", "xquals": Q0,
+              "nxq": 0, "odd": ""}
 
 
 def project_class(cl):
@@ -281,7 +332,8 @@ def project_class(cl):
         r["el"][e] = {"present": True, "ver": ver,
                       "origin": cid_of(pr.class_origin),
                       "prop": _prop_tok(pr.propagated), "quals": qm, "nq": nq,
-                      "hasx": False, "xquals": list(Q0), "nxq": 0, "odd": odd}
+                      "hasx": False, "pars": "", "xquals": list(Q0),
+                      "nxq": 0, "odd": odd}
     for mn, me in cl.methods.items():
         if mn.lower() != "m" or me.name.lower() != "m":
             r["extra"] = "UNCLASSIFIED-method"
@@ -289,9 +341,13 @@ def project_class(cl):
         qm, nq, desc, odd = _qmap(me.qualifiers)
         if me.return_type != "uint32":
             odd = "UNCLASSIFIED-returntype"
-        hasx, xq, nxq = False, list(Q0), 0
+        hasx, xq, nxq, hasy = False, list(Q0), 0, False
         for xn, par in me.parameters.items():
-            if xn.lower() != "x" or par.type != "string":
+            if xn.lower() == "y" and par.type == "uint32" and \
+                    not par.qualifiers and not hasy:
+                hasy = True
+                continue
+            if xn.lower() != "x" or par.type != "string" or hasx:
                 odd = "UNCLASSIFIED-parameter"
                 continue
             hasx = True
@@ -300,8 +356,9 @@ def project_class(cl):
         r["el"]["m"] = {"present": True, "ver": desc,
                         "origin": cid_of(me.class_origin),
                         "prop": _prop_tok(me.propagated), "quals": qm,
-                        "nq": nq, "hasx": hasx, "xquals": xq, "nxq": nxq,
-                        "odd": odd}
+                        "nq": nq, "hasx": hasx,
+                        "pars": ("x" if hasx else "") + ("y" if hasy else ""),
+                        "xquals": xq, "nxq": nxq, "odd": odd}
     return r
 
 
@@ -316,6 +373,67 @@ def _err(exc):
         return {"ok": False, "code": -1,
                 "kind": "pyerror-pywbem." + type(exc).__name__}
     return {"ok": False, "code": -1, "kind": "pyerror-" + type(exc).__name__}
+
+
+def _sync_quals(oq, nq):
+    for n in list(oq.keys()):
+        if n not in nq:
+            del oq[n]
+    for n, q in nq.items():
+        if n in oq:
+            o = oq[n]
+            o.value, o.tosubclass, o.overridable = \
+                q.value, q.tosubclass, q.overridable
+        else:
+            oq[n] = q
+
+
+def _sync_elems(oe, ne, kind):
+    for n in list(oe.keys()):
+        if n not in ne:
+            del oe[n]
+    for n, x in ne.items():
+        if n not in oe:
+            oe[n] = x
+            continue
+        o = oe[n]
+        _sync_quals(o.qualifiers, x.qualifiers)
+        if kind == "property":
+            o.value = x.value
+        elif kind == "method":
+            _sync_elems(o.parameters, x.parameters, "parameter")
+
+
+def edit_in_place(old, new):
+    """The client changes its CIMClass object `old` so that it declares what
+    `new` declares, touching the objects it already holds (qualifier objects,
+    qualifier dictionaries, property / method / parameter objects)."""
+    _sync_quals(old.qualifiers, new.qualifiers)
+    _sync_elems(old.properties, new.properties, "property")
+    _sync_elems(old.methods, new.methods, "method")
+
+
+def scribble(cl):
+    """The client overwrites a class object it RECEIVED."""
+    if not isinstance(cl, CIMClass):
+        return
+    for q in cl.qualifiers.values():
+        q.value = "scribbled"
+    for pr in list(cl.properties.values()):
+        if pr.type == "string":
+            pr.value = "scribbled"
+        pr.class_origin = "C12_Scribbled"
+        for q in pr.qualifiers.values():
+            q.value = "scribbled"
+        pr.qualifiers["QA"] = CIMQualifier("QA", "scribbled")
+    for me in list(cl.methods.values()):
+        me.class_origin = "C12_Scribbled"
+        for q in me.qualifiers.values():
+            q.value = "scribbled"
+        for par in me.parameters.values():
+            par.qualifiers["QA"] = CIMQualifier("QA", "scribbled")
+        me.parameters["z"] = CIMParameter("z", type="string")
+    cl.properties["zz"] = CIMProperty("zz", "scribbled", type="string")
 
 
 OK = {"ok": True, "code": 0, "kind": "ok"}
@@ -339,6 +457,8 @@ class Driver:
         self.events = []
         self.calls = []          # readable concrete calls (for replays)
         self.acalls = []         # abstract calls (replayable)
+        self.objs = {}           # handle -> client-side CIMClass object
+        self.objd = {}           # handle -> declaration the client put in
 
     def _begin(self):
         self.rng = random.Random(self.case_seed * 1000003 + len(self.acalls))
@@ -350,9 +470,13 @@ class Driver:
         return ev
 
     # -- mutating calls ------------------------------------------------------
-    def create(self, cid, sup, d, via="api", op="Create"):
+    def create(self, cid, sup, d, via="api", op="Create", obj=0):
         self._begin()
-        ac = {"op": op, "via": via, "name": cid, "super": sup, "d": d}
+        reuse = via == "api" and obj and obj in self.objs
+        if reuse:
+            d = self.objd[obj]      # what the client put into that object
+        ac = {"op": op, "via": via, "name": cid, "super": sup, "d": d,
+              "obj": obj if via == "api" else 0}
         ev = dict(ac)
         if via == "mof":
             ev["op"] = "Compile"    # creates or modifies: ClassModel decides
@@ -363,8 +487,15 @@ class Driver:
                 text = "compile_mof_string(%r)" % mof
                 self.conn.compile_mof_string(mof)
             else:
-                cc = build_cimclass(self.rng, cid, sup, d)
-                text = "%sClass(%s)" % (op, cc.tomof().replace("\n", " "))
+                if reuse:
+                    cc = self.objs[obj]
+                else:
+                    cc = build_cimclass(self.rng, cid, sup, d)
+                    if obj:
+                        self.objs[obj], self.objd[obj] = cc, d
+                text = "%sClass(%s%s)" % (
+                    op, "the client's object #%d again: " % obj
+                    if reuse else "", cc.tomof().replace("\n", " "))
                 if op == "Create":
                     self.conn.CreateClass(cc)
                 else:
@@ -374,8 +505,22 @@ class Driver:
             ev.update(_err(exc))
         return self._log(ac, text, ev)
 
-    def modify(self, cid, sup, d, via="api"):
-        return self.create(cid, sup, d, via=via, op="Modify")
+    def modify(self, cid, sup, d, via="api", obj=0):
+        return self.create(cid, sup, d, via=via, op="Modify", obj=obj)
+
+    def client_edit(self, obj, cid, sup, d):
+        """No request: the client changes, in place, an object it passed."""
+        self._begin()
+        ac = {"op": "ClientEdit", "obj": obj, "name": cid, "super": sup,
+              "d": d}
+        text = "(client object #%d unknown: nothing edited)" % obj
+        if obj in self.objs:
+            new = build_cimclass(self.rng, cid, sup, d)
+            edit_in_place(self.objs[obj], new)
+            self.objd[obj] = d
+            text = "client edits its object #%d in place -> %s" % (
+                obj, new.tomof().replace("\n", " "))
+        return self._log(ac, text, dict(ac))
 
     def create_inst(self, cid, key):
         self._begin()
@@ -432,11 +577,15 @@ class Driver:
         return self._log(ac, "DeleteClass(%r)" % n, ev)
 
     # -- queries ---------------------------------------------------------------
-    def get(self, cid, lo="F", iq="T", ico="T", hp=False, pl=()):
+    def get(self, cid, lo="F", iq="T", ico="T", hp=False, pl=(),
+            scribble_result=False):
+        cl = None
         self._begin()
         ac = {"op": "Get", "name": cid, "lo": lo, "iq": iq, "ico": ico,
               "hp": bool(hp), "pl": list(pl)}
         ev = dict(ac)
+        if scribble_result:
+            ac["scribble"] = True
         n = cname(self.rng, cid)
         cpl = [ename(self.rng, x) for x in pl] if hp else None
         text = ("GetClass(%r, LocalOnly=%r, IncludeQualifiers=%r, "
@@ -451,7 +600,14 @@ class Driver:
         except Exception as exc:  # noqa
             ev.update(ok=False, code=_err(exc)["code"],
                       cls=project_class(None))
-        return self._log(ac, text, ev)
+        self._log(ac, text, ev)
+        if scribble_result and cl is not None:
+            scribble(cl)
+            edit = {"op": "ClientEdit", "obj": 0, "name": cid, "super": "",
+                    "d": EMPTY_DECL}
+            self._log(edit, "client overwrites the class object returned by "
+                      "the previous GetClass", dict(edit))
+        return ev
 
     def enum_names(self, cid, deep):
         self._begin()
@@ -513,17 +669,22 @@ class Driver:
         op = ac["op"]
         if op == "Create":
             return self.create(ac["name"], ac["super"], ac["d"],
-                               ac.get("via", "api"))
+                               ac.get("via", "api"), obj=ac.get("obj", 0))
         if op == "Modify":
             return self.modify(ac["name"], ac["super"], ac["d"],
-                               ac.get("via", "api"))
+                               ac.get("via", "api"), obj=ac.get("obj", 0))
+        if op == "ClientEdit":
+            if not ac.get("obj"):
+                return None     # replay: the preceding Get scribbles itself
+            return self.client_edit(ac["obj"], ac["name"], ac["super"],
+                                    ac["d"])
         if op == "CreateInst":
             return self.create_inst(ac["name"], ac["key"])
         if op == "Delete":
             return self.delete(ac["name"])
         if op == "Get":
             return self.get(ac["name"], ac["lo"], ac["iq"], ac["ico"],
-                            ac["hp"], ac["pl"])
+                            ac["hp"], ac["pl"], ac.get("scribble", False))
         if op == "EnumClassNames":
             return self.enum_names(ac["name"], ac["deep"])
         if op == "EnumClasses":
@@ -553,7 +714,9 @@ class Driver:
         plists = [(False, ()), (True, ()), (True, ("p",)), (True, ("p", "q"))]
         chosen = [] if level < 1 else cls if level >= 2 else \
             self.brng.sample(cls, min(2, len(cls)))
-        for c in cls:
+        for c in cls:       # results are overwritten by the client ...
+            self.get(c, scribble_result=True)
+        for c in cls:       # ... which must not change what the server holds
             self.get(c)
         for c in chosen:
             for lo in "TF":
@@ -590,28 +753,58 @@ def rnd_q(rng, with_key=False):
     return [rng.choice(["", "", "", "1", "1", "2"]) for _ in range(3)] + [""]
 
 
-def rnd_ed(rng, inherited, is_m, p_present=0.6, p_right=0.85):
+def rnd_fl(rng, qm, p=0.3):
+    """Explicit flavors on about a third of the given qualifiers (never on
+    Key): every combination of {-, ToSubclass, Restricted} x {-, Enable-,
+    DisableOverride}."""
+    return [[rng.choice(["", "T", "R", "R"]), rng.choice(["", "E", "D", "D"])]
+            if v and i < 3 and rng.random() < p else list(NOFL)
+            for i, v in enumerate(qm)]
+
+
+def rnd_ed(rng, inherited, is_m, p_present=0.6, p_right=0.85, exp_pars="x"):
     if rng.random() >= p_present:
         return ed()
     ovr = inherited if rng.random() < p_right else not inherited
-    return ed(True, ovr, rnd_q(rng), rnd_q(rng) if is_m else Q0)
+    pars = ""
+    if is_m:
+        # mostly the inherited parameter list; sometimes a changed signature
+        pars = exp_pars if inherited and rng.random() < 0.88 else \
+            rng.choice(["x", "x", "x", "x", "xy", "y", ""])
+    qm = rnd_q(rng)
+    xm = rnd_q(rng) if "x" in pars else Q0
+    return ed(True, ovr, qm, xm, rnd_fl(rng, qm), rnd_fl(rng, xm), pars)
 
 
-def rnd_decl(rng, exposes, is_root):
+def rnd_decl(rng, exposes, is_root, exp_pars="x"):
     """exposes: set of element names the superclass exposes."""
-    return decl(cq=rnd_q(rng),
+    cq = rnd_q(rng)
+    return decl(cq=cq, cfl=rnd_fl(rng, cq),
                 k=KEY_ED if is_root else ed(),
                 p=rnd_ed(rng, "p" in exposes, False),
                 q=rnd_ed(rng, "q" in exposes, False),
-                m=rnd_ed(rng, "m" in exposes, True))
+                m=rnd_ed(rng, "m" in exposes, True, exp_pars=exp_pars))
 
 
 def random_history(rng, nclasses=6, maxdepth=5, maxfan=4):
     """A list of abstract mutating calls building (and partly tearing down) a
     forest; the generator keeps a rough picture of the forest only to make
     most declarations acceptable (it never judges)."""
-    forest = {}                 # cid -> (sup, exposes set)
+    forest = {}                 # cid -> (sup, exposes set, pars of m)
     calls = []
+    objs = []                   # [handle, cid, sup] of client objects
+    nobj = [0]
+
+    def newobj(cid, sup):
+        nobj[0] += 1
+        objs.append([nobj[0], cid, sup])
+        return nobj[0]
+
+    def mpars(sup, d):
+        if d["el"]["m"]["present"]:
+            return d["el"]["m"]["pars"]
+        return forest[sup][2] if sup in forest else "x"
+
     ids = list(CIDS[:nclasses])
     rng.shuffle(ids)
     pending = list(ids)
@@ -644,31 +837,52 @@ def random_history(rng, nclasses=6, maxdepth=5, maxfan=4):
             else:
                 sup = ""
             exp = forest[sup][1] if sup in forest else set()
-            d = rnd_decl(rng, exp, sup == "" or sup not in forest)
-            calls.append({"op": "Create", "name": cid, "super": sup, "d": d})
+            d = rnd_decl(rng, exp, sup == "" or sup not in forest,
+                         forest[sup][2] if sup in forest else "x")
+            calls.append({"op": "Create", "name": cid, "super": sup, "d": d,
+                          "obj": newobj(cid, sup)})
             if sup == "" or sup in forest:
                 # assume accepted when it looks acceptable
                 bad = any(d["el"][e]["present"] and e in exp and
                           not d["el"][e]["ovr"] for e in ELEMS)
                 if not bad:
                     forest[cid] = (sup, exp | {e for e in ELEMS
-                                               if d["el"][e]["present"]})
+                                               if d["el"][e]["present"]},
+                                   mpars(sup, d))
                 else:
                     pending.insert(0, cid)
             else:
                 pending.insert(0, cid)
         elif forest and r < 0.74:
             cid = rng.choice(sorted(forest))
-            sup, _ = forest[cid]
+            sup = forest[cid][0]
             exp = forest[sup][1] if sup in forest else set()
-            d = rnd_decl(rng, exp, sup == "")
-            calls.append({"op": "Modify", "name": cid, "super": sup, "d": d})
+            again = [o for o in objs if o[1] == cid and o[2] == sup]
+            r3 = rng.random()
+            if again and r3 < 0.25:
+                # the same client object is passed again (the driver
+                # substitutes the declaration the client put into it)
+                o = rng.choice(again)
+                calls.append({"op": "Modify", "name": cid, "super": sup,
+                              "d": EMPTY_DECL, "obj": o[0], "via": "api"})
+                continue
+            d = rnd_decl(rng, exp, sup == "",
+                         forest[sup][2] if sup in forest else "x")
+            if again and r3 < 0.45:
+                # the client edits an object it passed earlier (no request)
+                o = rng.choice(again)
+                calls.append({"op": "ClientEdit", "name": cid, "super": sup,
+                              "d": d, "obj": o[0]})
+                continue
+            calls.append({"op": "Modify", "name": cid, "super": sup, "d": d,
+                          "obj": newobj(cid, sup)})
             if not children(cid):
                 bad = any(d["el"][e]["present"] and e in exp and
                           not d["el"][e]["ovr"] for e in ELEMS)
                 if not bad:
                     forest[cid] = (sup, exp | {e for e in ELEMS
-                                               if d["el"][e]["present"]})
+                                               if d["el"][e]["present"]},
+                                   mpars(sup, d))
         elif forest and r < 0.9:
             calls.append({"op": "CreateInst",
                           "name": rng.choice(sorted(forest)),
@@ -690,6 +904,69 @@ def random_history(rng, nclasses=6, maxdepth=5, maxfan=4):
     return calls
 
 
+def reuse_history(rng):
+    """Directed family for the isolation of passed objects (ClassModel:
+    CLIENT OBJECTS): a client object h declaring leaf L is passed, then
+      "context"  the ancestor is deleted and re-created with other qualifier
+                 values, L re-created, and h is passed AGAIN;
+      "edit"     the client edits h in place (no request);
+      "again"    h is passed again unchanged;
+      "editpass" h is edited and then passed again.
+    Root / leaf declarations, the operation that receives h (CreateClass or
+    ModifyClass) and the variant are random."""
+    ids = rng.sample(CIDS, 3)
+    R, L, X = ids
+    calls = []
+
+    def root_decl():
+        d = rnd_decl(rng, set(), True)
+        for e in ("p", "q", "m"):
+            if not d["el"][e]["present"] or rng.random() < 0.7:
+                qm = [rng.choice(["1", "2", ""]), "", rng.choice(["1", ""]), ""]
+                d["el"][e] = ed(True, False, qm,
+                                rnd_q(rng) if e == "m" else Q0)
+        return d
+
+    def leaf_decl():
+        # overrides with few local qualifiers, so that inheritance shows
+        d = decl()
+        for e in ("p", "q", "m"):
+            if rng.random() < 0.75:
+                qm = [rng.choice(["", "", "1", "2"]), rng.choice(["", "1"]),
+                      "", ""]
+                d["el"][e] = ed(True, True, qm, Q0)
+        return d
+
+    calls.append({"op": "Create", "name": R, "super": "", "d": root_decl(),
+                  "obj": 1})
+    via_obj = rng.choice(["Create", "Modify", "Modify"])
+    if via_obj == "Modify":
+        calls.append({"op": "Create", "name": L, "super": R,
+                      "d": EMPTY_DECL if rng.random() < 0.5 else leaf_decl(),
+                      "obj": 2})
+    calls.append({"op": via_obj, "name": L, "super": R, "d": leaf_decl(),
+                  "obj": 3, "via": "api"})
+    variant = rng.choice(["context", "context", "edit", "again", "editpass"])
+    if variant == "context":
+        calls.append({"op": "Delete", "name": R})
+        calls.append({"op": "Create", "name": R, "super": "",
+                      "d": root_decl(), "obj": 4})
+        if via_obj == "Modify":
+            calls.append({"op": "Create", "name": L, "super": R,
+                          "d": EMPTY_DECL, "obj": 5})
+    if variant in ("edit", "editpass"):
+        calls.append({"op": "ClientEdit", "name": L, "super": R,
+                      "d": leaf_decl(), "obj": 3})
+    if variant != "edit":
+        calls.append({"op": via_obj if variant == "context" else "Modify",
+                      "name": L, "super": R, "d": EMPTY_DECL, "obj": 3,
+                      "via": "api"})
+    if rng.random() < 0.5:
+        calls.append({"op": "Create", "name": X, "super": L,
+                      "d": leaf_decl(), "obj": 6})
+    return calls
+
+
 def run_history(rng, calls, via_mode="mixed", level=1):
     """Run abstract mutating calls with query batteries in between.
     via_mode: "api", "mof", "mixed" (per call) or "given" (calls carry it)."""
@@ -699,8 +976,7 @@ def run_history(rng, calls, via_mode="mixed", level=1):
                       if c["op"] in ("Create", "Modify", "CreateInst")] or [0])
     for i, c in enumerate(calls):
         c = dict(c)
-        if c["op"] in ("Create", "Modify") and \
-                (via_mode != "given" or "via" not in c):
+        if c["op"] in ("Create", "Modify") and "via" not in c:
             c["via"] = via_mode if via_mode in ("api", "mof") else \
                 rng.choice(["api", "mof"])
         drv.run(c)
